@@ -582,7 +582,7 @@ class StmtTr:
         out.append("End %s." % self.name)
         # every Section variable becomes an implicit argument so that Proofs instantiate them BY NAME
         names = " ".join(self.typevars + sorted(self.vars))
-        out.append("Arguments %s_body {%s}." % (self.name, names))
+        out.append("Arguments %s_body {%s}." % (self.name, " ".join(self.typevars + sorted(v for v in self.vars if v not in decorators))))
         out.append("Arguments %s {%s}." % (self.name, names))
         return "\n".join(out)
 
